@@ -312,6 +312,32 @@ def run_replay(task):
         for env in task.get("envs", []):
             xs = [Fraction(v) for v in env]
             out["digests"].append(_plain_run(scn, xs)[1])
+        # cells the symbolic engine could not follow to the end (tolerance band, intractable,
+        # budget): the property is spot-checked on the plain library at the cell's witness
+        out["spots"] = []
+        names_spot = getattr(scn, "spot_names", None)
+        for env in task.get("spot_envs", []):
+            xs = [Fraction(v) for v in env]
+            if names_spot is None:
+                out["spots"].append(None)
+                continue
+            outcome, dg, exc = _plain_run(scn, xs)
+            hits = []
+            for nm in names_spot:
+                try:
+                    if exc is not None and outcome is None:
+                        rn = scn.on_raise(exc["exc"], exc["where"][1], exc["where"][2]) if hasattr(scn, "on_raise") else None
+                        if rn:
+                            okv, text = scn.confirm(rn, xs, outcome, exc)
+                            if okv:
+                                hits.append(dict(name=rn, text=text, sig=scn.signature(rn, xs, outcome, exc) if hasattr(scn, "signature") else {}))
+                        break
+                    okv, text = scn.confirm(nm, xs, outcome, exc)
+                    if okv:
+                        hits.append(dict(name=nm, text=text, sig=scn.signature(nm, xs, outcome, exc) if hasattr(scn, "signature") else {}))
+                except Exception as e:  # noqa
+                    pass
+            out["spots"].append(hits)
         for v in task.get("violations", []):
             if v.get("unrepresentable"):
                 out["confirms"].append(dict(reproduced=False, text="witness not representable with denominators <= 1e8: not replayed", sig={}, skipped=True))
